@@ -576,8 +576,54 @@ class Rewriter:
 
 
     # R22: collections::Vec element moves -- pointers are (buffer id, index) pairs into a ghost heap of token sequences --------
+    # R34: consuming adapters over `slices.iter()` (a slice of slices) are their defining loops over the indices 0..len ----------------
+    def slice_iter_folds(self, b):
+        """`let N: usize = X.iter().map(|V| E).sum();`   == let mut N: usize = 0; for each V: N = N + (E)   (core: Sum for usize is
+              fold(0, |a, b| a + b), with the caller's overflow checks -- so the `+` keeps its no-overflow obligation)
+           `let N[: usize] = X.iter().fold(I, |A, V| B);` == let mut N = I; for each V: { let A = N; N = B }
+           `X.iter().for_each(|V| { B });`                == for each V: { B }"""
+        hdr = lambda x, v: 'for i__ in 0..%s.len() {\n            let %s = %s[i__];' % (x, v, x)
+        b = self.sub('R34:map-sum', r'(?m)^(\s*)let (\w+): usize = (\w+)\.iter\(\)\.map\(\|(\w+)\| ([^|;{}]+)\)\.sum\(\);',
+                     lambda m: '%slet mut %s: usize = 0;\n%s%s\n%s    %s = %s + (%s);\n%s}' % (m.group(1), m.group(2), m.group(1), hdr(m.group(3), m.group(4)), m.group(1), m.group(2), m.group(2), m.group(5).strip(), m.group(1)), b)
+        while True:
+            mm = mask(b)
+            m = re.search(r'(?m)^(\s*)let (\w+)(: usize)? = (\w+)\.iter\(\)\.fold\(', mm)
+            if not m:
+                break
+            o = m.end() - 1
+            c_ = match_close(mm, o)
+            args = split_args(b[o + 1:c_])
+            cm = re.match(r'^\|(\w+), (\w+)\|\s*(.*)$', ', '.join(a.strip() for a in args[1:]), re.S) if len(args) >= 2 else None
+            if not cm or not re.match(r'\s*;', b[c_ + 1:]):
+                raise ExtractError('R34: unsupported fold shape: %s' % b[m.start():c_ + 1][:120])
+            ind, name, ty, x = m.group(1), m.group(2), m.group(3) or ': usize', m.group(4)
+            init = args[0].strip()
+            init = init if re.search(r'[a-z]', init) else init + 'usize'
+            rep = '%slet mut %s%s = %s;\n%s%s\n%s    let %s = %s;\n%s    %s = %s;\n%s}' % (ind, name, ty, init, ind, hdr(x, cm.group(2)), ind, cm.group(1), name, ind, name, cm.group(3).strip(), ind)
+            e = c_ + 1 + re.match(r'\s*;', b[c_ + 1:]).end()
+            b = b[:m.start()] + rep + b[e:]
+            self.fired('R34:fold')
+        while True:
+            mm = mask(b)
+            m = re.search(r'(?m)^(\s*)(\w+)\.iter\(\)\.for_each\(', mm)
+            if not m:
+                break
+            o = m.end() - 1
+            c_ = match_close(mm, o)
+            cm = re.match(r'^\|(\w+)\|\s*(\{.*\})\s*$', b[o + 1:c_].strip(), re.S)
+            if not cm or not re.match(r'\s*;', b[c_ + 1:]):
+                raise ExtractError('R34: unsupported for_each shape: %s' % b[m.start():c_ + 1][:120])
+            ind = m.group(1)
+            rep = '%s%s\n%s    %s\n%s}' % (ind, hdr(m.group(2), cm.group(1)), ind, cm.group(2), ind)
+            e = c_ + 1 + re.match(r'\s*;', b[c_ + 1:]).end()
+            b = b[:m.start()] + rep + b[e:]
+            self.fired('R34:for_each')
+        return b
+
     def vecops_rules(self, b):
         c = self.cfg
+        if c.get('slice_folds'):
+            b = self.slice_iter_folds(b)
         # casts between pointer types are the identity on (buffer, index) pairs
         b = self.sub('R22:slice-len', r'\(\*other\)\.len\(\)', 'other.len()', b)
         b = self.sub('R22:raw-slice-ptr', r'\bother as \*const T\b', 'other.as_ptr()', b)
@@ -814,6 +860,14 @@ class Rewriter:
         b = self.sub('R27:forward', r'\(\*\*self\)\.finish\(\)', 'inner_finish(self, st)', b)
         b = self.sub('R27:forward', r'\(\*\*self\)\.len\(\)', 'inner_len(self)', b)
         b = self.sub('R27:forward', r'\(\*\*self\)\.(write_\w+)\(([^()]*)\)', r'inner_\1(self, \2, st)', b)
+        b = self.sub('R27:forward', r'\(\*\*self\)\.(next|next_back)\(\)', r'inner_\1(self, st)', b)
+        b = self.sub('R27:forward', r'\(\*\*self\)\.(nth|nth_back)\(([^()]*)\)', r'inner_\1(self, \2, st)', b)
+        b = self.sub('R27:forward', r'\(\*\*self\)\.size_hint\(\)', 'inner_size_hint(self, st)', b)
+        b = self.sub('R27:forward', r'\(\*\*self\)\.hash\(([^()]*)\)', r'inner_hash(self, \1, st)', b)
+        b = self.sub('R27:forward', r'\bfmt::(Display|Debug)::fmt\(&\*\*self, (\w+)\)', lambda m: 'inner_fmt_%s(self, %s, st)' % (m.group(1).lower(), m.group(2)), b)
+        b = self.sub('R27:forward', r'\bfmt::Pointer::fmt\(&(\w+), (\w+)\)', r'raw_fmt_pointer(&\1, \2, st)', b)
+        b = self.sub('R27:raw-type', r'\blet (\w+): \*const T = ', r'let \1: RawP = ', b)
+        b = self.sub('R27:forward', r'\bF::poll\(Pin::new\((?:&mut \*)?self\), (\w+)\)', r'inner_poll(self, \1, st)', b)
         b = self.sub('R27:box-deref', r'&(?:mut )?\*\*?([a-z]\w*)\b(?![.(])', r'\1.0', b)
         return b
 
